@@ -280,6 +280,10 @@ def main():
     callers = [m9.group(1) for m9 in re.finditer(r"\n    (?:pub )?fn ([a-z_0-9]+)\s*[<(]", rdb)
                if "write_snapshot(" in (block_after(rdb, m9.start()) if True else "") and m9.group(1) != "write_snapshot"]
     serial = bool(lk) and 0 <= lk.start() < ws_call and sorted(set(callers)) == ["save"] and "drop(_" not in sv
+    wsb = fn_body(rdb, "write_snapshot") or ""
+    afresh = bool(re.search(r"\.create\(true\)", wsb)) and bool(re.search(r"\.truncate\(true\)", wsb)) and "create_new" not in wsb
+    out.append("(* rdb.rs write_snapshot opens the temporary file with create(true) and truncate(true), never create_new: whatever a\n   dead process left under that name is overwritten *)")
+    out.append("Definition rdb_tmp_opened_afresh : bool := %s." % ("true" if afresh else "false"))
     out.append("(* rdb.rs: save() holds save_lock from before write_snapshot to its end; write_snapshot has no other caller *)")
     out.append("Definition rdb_save_serialised : bool := %s." % ("true" if serial else "false"))
     out.append("Definition rdb_write_snapshot_callers : list bytes :=\n  %s." % coq_list(sorted(set(callers))))
